@@ -385,7 +385,13 @@ def run(R):
         last = [n for n in h.body if isinstance(n, ast.If)]
         okr = False
         if last:
-            k, s, pos = q.atom_test(last[0].test)
+            tst = last[0].test
+            if isinstance(tst, ast.Name):
+                # the condition was put into a local first (`out_of_tries = i + 1 == max_tries`)
+                tv = common.assigned_values(w.node, tst.id)
+                if len(tv) == 1 and tv[0][0] == "expr":
+                    tst = tv[0][1]
+            k, s, pos = q.atom_test(tst)
             okr = k == "eq" and pos and set(s) in (set(["%s + 1" % iv, "max_tries"]), set([iv, "max_tries - 1"])) and any(isinstance(x, ast.Raise) and x.exc is None for x in last[0].body)
         R.check(okr, "C14.RETRY", w.qualname + ":last", R.site(w, h), "the last attempt's exception is re-raised (bare raise when i + 1 == max_tries)",
                 "the handler does not re-raise exactly on the last attempt")
